@@ -195,6 +195,15 @@ pub fn geometry(seed: u64) -> Plan {
     let mut p = base_plan("geometry", seed, g);
     p.peers.push(base_peer(0, n));
     good_tracker(&mut p, 1);
+    // restart after a crash: stale (truncated or garbage) piece files of an earlier run
+    {
+        let mut h = Rng64::sub(seed, "geometry-stale");
+        if h.chance(1, 10) {
+            for _ in 0..h.range(1, 3) {
+                p.preexisting.push((h.below(n as u64) as u32, 1 + h.below(2) as u8));
+            }
+        }
+    }
     p.deadline_ms = 30_000;
     p.linger_ms = 500;
     p
@@ -317,6 +326,7 @@ pub fn announce_url(seed: u64) -> Plan {
                 "?xinfo_hash=q&reuploaded=1",
                 "?prevent=started&renumwant=3",
                 "?tag=a+b&c=1",
+                "?passkey=%FF%FE%01ab&x=%E9t%E9",
             ])
             .to_string(),
     };
@@ -737,8 +747,14 @@ fn fatal_element(r: &mut Rng64) -> Vec<u8> {
             return v;
         }
         _ => {
-            v.push(19);
-            v.extend_from_slice(b"BitTorrent_protocol");
+            // wrong protocol string, or the right one under a wrong length byte
+            if r.chance(1, 2) {
+                v.push(19);
+                v.extend_from_slice(b"BitTorrent_protocol");
+            } else {
+                v.push(*r.pick(&[20u8, 32, 255, 18]));
+                v.extend_from_slice(b"BitTorrent protocol");
+            }
             v.extend_from_slice(&[0u8; 48]);
             return v;
         }
@@ -1378,6 +1394,14 @@ pub fn announce(seed: u64) -> Plan {
     let g = small_multi_geometry(&mut r, 3, 25);
     let n = g.pieces();
     let mut p = base_plan("announce", seed, g);
+    {
+        let mut h = Rng64::sub(seed, "announce-stale");
+        if h.chance(1, 8) {
+            for _ in 0..h.range(1, 3) {
+                p.preexisting.push((h.below(n as u64) as u32, 1 + h.below(2) as u8));
+            }
+        }
+    }
     let ks = r.range(2, 6) as usize;
     let hs = if r.chance(1, 2) { vec![vec![true; n]; ks] } else { split_has(&mut r, n, ks) };
     let mut k = 0;
@@ -1625,6 +1649,7 @@ pub fn bookkeeping(seed: u64) -> Plan {
                 6 => Act::Send(Msg::Interested),
                 7 => Act::Send(Msg::NotInterested),
                 8 | 9 => Act::Gain(r.below(n as u64) as u32),
+                10 if r.chance(1, 6) => Act::Send(Msg::Have(n as u32)),
                 10 => Act::Send(Msg::Bitfield(crate::codec::bitfield_bytes(&peer.has))),
                 _ => Act::Send(Msg::KeepAlive),
             };
@@ -1811,7 +1836,16 @@ pub fn tracker_faults(seed: u64) -> Plan {
             ),
             5 => {
                 if r.chance(1, 2) {
-                    TrackerStep::Failure("torrent not registered".into())
+                    TrackerStep::Failure(
+                        r.pick(&[
+                            "torrent not registered",
+                            // long, with multi-byte characters at many byte offsets
+                            "Zugriff verweigert: der Torrent ist auf diesem Tracker nicht (mehr) registriert \u{2014} bitte später erneut versuchen, größere Störung",
+                            "aaaaaaaaaaaaaaaaaaaaaaaaaaaaaaaaaaaaaaaaaaaaaaaaaaaaaaaaaaaaaaaaaé\u{20AC}é\u{20AC}é\u{20AC}é\u{20AC}é\u{20AC} \u{1F6AB} torrent inconnu",
+                            "\u{1F6AB}\u{1F6AB}\u{1F6AB}\u{1F6AB}\u{1F6AB}\u{1F6AB}\u{1F6AB}\u{1F6AB}\u{1F6AB}\u{1F6AB}\u{1F6AB}\u{1F6AB}\u{1F6AB}\u{1F6AB}\u{1F6AB}\u{1F6AB}\u{1F6AB}\u{1F6AB}é\u{1F6AB}\u{1F6AB}",
+                        ])
+                        .to_string(),
+                    )
                 } else {
                     TrackerStep::FailureWithPeers("overloaded, retry later".into())
                 }
@@ -1840,7 +1874,8 @@ pub fn tracker_faults(seed: u64) -> Plan {
     }
     let lat = *r.pick(&[1u64, 100, 1000]);
     total_ms += lat;
-    p.tracker.steps.push((lat, TrackerStep::Good { peers: names.clone(), malformed: r.range(0, 7) as u32, wrong_id_for: vec![] }));
+    let warn = if Rng64::sub(seed, "tracker-warning").chance(1, 6) { vec!["#warning".to_string()] } else { vec![] };
+    p.tracker.steps.push((lat, TrackerStep::Good { peers: names.clone(), malformed: r.range(0, 7) as u32, wrong_id_for: warn }));
     // flapping tracker: after the first good reply it fails again for a while (matters when the
     // client has to re-announce, possibly from several announce tasks at once)
     let flapping = r.chance(1, 3);
